@@ -100,3 +100,40 @@ Definition quota_ok (p : params) (counts quota : list nat) : Prop :=
   let c1 := map (fun c => if nsmax_active p then Nat.min (Z.to_nat (p_nsmax p)) c else c) counts in
   if (p_nmaxi p <=? 0)%Z || (sumN c1 <? Z.to_nat (p_nmaxi p))%nat then quota = c1
   else exists turn j, (j <= length counts)%nat /\ quota = rr_shape c1 turn j /\ sumN quota = Z.to_nat (p_nmaxi p).
+
+(* ------------------------------------------------------------------ samples with undefined coordinates / drifts *)
+Definition coords_defined (x : xsample) : Prop := forall o, In o (x_coords x) -> o <> None.
+Definition fext_defined (x : xsample) : Prop := forall o, In o (x_fext x) -> o <> None.
+Definition admissible_x (p : params) (t : target) (x : xsample) : Prop :=
+  coords_defined x /\ fext_defined x /\ admissible p t (x_total x).
+Definition admissible_x_b (p : params) (t : target) (x : xsample) : bool :=
+  forallb is_def (x_coords x) && forallb is_def (x_fext x) && admissible_b p t (x_total x).
+(* the same sample seen as a masked one when a coordinate or a drift is undefined *)
+Definition x_embed (x : xsample) : sample :=
+  {| s_active := x_active x && forallb is_def (x_coords x) && forallb is_def (x_fext x);
+     s_coords := map oq0 (x_coords x); s_vars := x_vars x; s_code := x_code x |}.
+Definition spec_moving_x (oracle : Q -> Q -> nat) (p : params) (t : target) (xs : list xsample) : list nat :=
+  if (Z.of_nat (length xs) <? p_nmini p)%Z then []
+  else spec_select p (map (fun ix => mk_cand oracle p t (fst ix, x_total (snd ix)))
+                          (filter (fun ix => admissible_x_b p t (snd ix)) (enum xs))).
+
+(* ------------------------------------------------------------------ what the summary columns are said to mean *)
+Fixpoint run_from (flags : list bool) (n : nat) : nat :=      (* length of the run of empty sectors starting here *)
+  match n, flags with
+  | S n', true :: r => S (run_from r n')
+  | _, _ => 0%nat
+  end.
+Fixpoint max_run (flags : list bool) (n k : nat) : nat :=
+  match k with
+  | O => 0%nat
+  | S k' => Nat.max (run_from flags n) (max_run (tl flags) n k')
+  end.
+(* neighbourhood described by the samples actually kept: their number, their extreme squared distances, the sectors
+   holding at least one of them, the longest run of consecutive empty sectors around the circle *)
+Definition summary_spec (nsect : nat) (fin : st) : summary :=
+  let kept := map fst (filter (fun ca => snd ca) fin) in
+  let empty := map (fun s => match in_sect s kept with [] => true | _ => false end) (seq 0 nsect) in
+  {| sm_number := length kept;
+     sm_max2 := fold_left omax (map c_d2 kept) None; sm_min2 := fold_left omin (map c_d2 kept) None;
+     sm_nonempty := length (filter negb empty);
+     sm_cempty := max_run (empty ++ empty) nsect nsect |}.
